@@ -9,6 +9,7 @@ import Bita.Proofs.Schedule
 import Bita.Proofs.CliFs
 import Bita.Proofs.OptionsCompose
 import Bita.Proofs.Metadata
+import Bita.Proofs.MetadataMaps
 
 namespace Bita.Props.C11
 open Bita Bita.Proto Bita.Spec Bita.Proofs
@@ -224,5 +225,20 @@ example : Options.parseHumanSize ['1', '7', '1', '7', '9', '8', '6', '9', '1', '
   decide +kernel
 example : ∃ p, Options.parseCompress exAvg3 = .ok p ∧ ¬ NotMisuse p.cmd.opts.cfg := by
   refine ⟨_, rfl, ?_⟩; decide +kernel
+
+/-- **Metadata, from the archive back to the reader.**  The writer's map model (`Options.metaInsert`,
+`compress_cmd`) and the reader's (`Proto.mapInsert`, prost's map merge in `decodeDictionary`) were
+written separately against different call sites; they are one function, so decoding the entries of
+a written map in order rebuilds the map `compress_cmd` built. -/
+theorem metadata_reader_and_writer_maps_agree (k v : Bytes) (m : List (Bytes × Bytes)) :
+    Proto.mapInsert k v m = Options.metaInsert m k v :=
+  Proofs.mapInsert_eq_metaInsert k v m
+
+theorem decoded_metadata_entries_rebuild_the_written_map (pairs : List (Bytes × Bytes)) :
+    pairs.foldl (fun m e => Proto.mapInsert e.1 e.2 m) [] = Options.metadataOf pairs [] :=
+  Proofs.decoded_entries_build_the_written_map pairs
+
+example : [([2], [9]), ([1], [7]), ([2], [8])].foldl (fun m (e : Bytes × Bytes) => Proto.mapInsert e.1 e.2 m) []
+    = [([1], [7]), ([2], [8])] := by decide
 
 end Bita.Props.C11
